@@ -1,5 +1,5 @@
 HOOK_COMMITS = ["1ae5c62"]
-FIX_COMMITS = ["42a7f6e", "a52dade", "29629a0"]
+FIX_COMMITS = ["42a7f6e", "a52dade", "29629a0", "222b812", "c889ba9"]
 
 ENGINES = [
     {"name": "stack", "path": "harness/internal/stack", "serves_properties": ["C01", "C02"], "kind_free_text": "in-process server: real disk cache + HTTP handler on loopback TCP behind a ServeMux + gRPC over bufconn with panic-recording interceptors"},
@@ -10,7 +10,26 @@ ENGINES = [
 _PBT = "property-based testing (pgregory.net/rapid): "
 
 CLAIMS = {
-    "C10": dict(
+    "C06": dict(
+        technique=_PBT + "differential against the harness's own reference traversal of the REAPI message (MUST-HIT / MUST-MISS) over generated ActionResult shapes x per-blob presence states; LRU-position oracle for 'a hit is a use'",
+        text="Generated ActionResults (0..45 output files crossing the internal batch of 20, inline/by-digest mixes, Trees with root and child files, stdout/stderr digest/raw/both, empty-blob and duplicate references) with a drawn state per referenced blob (local, backend-only, absent, wrong stated size), with and without a scripted backend, uploaded over gRPC or HTTP and looked up over gRPC GetActionResult, HTTP GET and HTTP HEAD: hit iff the harness's traversal finds every reference present; misses are NOT_FOUND/404 only; after a hit every locally held referenced blob is more recent in the LRU order than fillers uploaded before the lookup.",
+        note="'Evicted by earlier traffic' is represented by the absent state. Recency is read from the index snapshot hook (C05 establishes that eviction follows that order). Malformed Tree blobs are C14's.",
+    ),
+    "C11": dict(
+        technique=_PBT + "grammar-based generation of ActionResults (valid / one invalid field) with a validity predicate and a round-trip oracle (proto.Equal modulo the documented server-side changes) across upload and read encodings",
+        text="Generated messages over every ActionResult field, uploaded 1-3 times to one key through gRPC, HTTP protobuf and HTTP JSON (plain or zstd), read back through gRPC GetActionResult with every inline-request combination and HTTP GET as protobuf and JSON: valid => accepted, each invalid kind => rejected with all views of the key unchanged, hits equal the last accepted upload after normalising worker name and (digest, bytes) pairs, inlining iff requested and within the 3 MiB budget, de-inlined bytes present in the CAS, JSON view == protobuf view, stored bytes parse and validate.",
+        note="Any payloads use a registered type only. Output directories with an empty path are not generated (statement silent). nil list elements are not expressible in JSON and are skipped for that encoding.",
+    ),
+    "C15": dict(
+        technique=_PBT + "stateful model-based testing: three independent maps (CAS / validated AC / raw AC, AC keyed by instance when mangling is on) compared with EVERY namespace x key x instance read-back after every step",
+        text="Generated histories of puts, overwrites and failing puts over a pool of hashes used as keys in all three namespaces, through gRPC and two HTTP front ends (validation on/off) mounted like main.go, with instance names that are empty, nested, contain ac/cas/blobs/64-hex segments, unicode or characters that need URL escaping, mangling on/off; after each step every (namespace, key, instance) is read over every front end (also with Accept-Encoding: zstd) and must equal its model map.",
+        note="Large cache, so no eviction (cross-keyspace eviction interference is covered by C05's 'entry changed although not written' and order invariants over keys shared between keyspaces). Instance names are clean per README (no //, ./, ../).",
+    ),
+    "C18": dict(
+        technique=_PBT + "boundary-value generation around the configured limits (limit-1, limit, limit+1, far above; tiny transport size for large logical size) with an accept/refuse decision oracle on every write path and every backend-read path",
+        text="max_blob_size L x logical size relative to L x content x ten write paths x storage mode: size <= L accepted and present, size > L refused with a client error and nothing stored, GetCapabilities advertises L. max_proxy_blob_size P x backend object size relative to P x kind x {Get size known/unknown, Contains known/unknown, FindMissingBlobs, dependency check, HTTP GET/HEAD} x backend that can/cannot report sizes: nothing over P is served, cached or reported present, FindMissing never asks the backend about digests over P.",
+        note="For inlined ActionResult blobs the enclosing message is itself an item subject to the limit; cases where it exceeds L are checked in the refuse direction only. Known finding F17 (see known-findings.txt) is excluded by construction and re-demonstrated by a probe.",
+    ),    "C10": dict(
         technique=_PBT + "reference-model oracle: the response must equal the request filtered (order and multiplicity kept) by the harness's own presence predicate over a generated partition of digests",
         text="Generated request lists (0..300 digests, weighted around the internal batch size 20 and 40, duplicates, adversarial orders such as 'missing first, locally present last batch') over a pool partitioned into local / backend-only / both / absent / size-mismatched / empty blob / backend-but-over-max_proxy_blob_size, with and without a scripted backend that answers after per-digest delays, optionally under concurrent unrelated uploads, through gRPC and the disk layer; thorough tier repeats it under the race detector.",
         note="Backend is the scripted in-process cache.Proxy (honours hash and size). Concurrent traffic only touches other keys, as the statement says ('present throughout the call').",
@@ -45,4 +64,4 @@ CLAIMS = {
 }
 
 _TODO = "check not built yet in this session (claimed once its check exists); technique applies"
-NOT_APPLICABLE = {p: _TODO for p in ["C06", "C07", "C08", "C09", "C11", "C12", "C13", "C14", "C15", "C17", "C18", "C19", "C20"]}
+NOT_APPLICABLE = {p: _TODO for p in ["C07", "C08", "C09", "C12", "C13", "C14", "C17", "C19", "C20"]}
